@@ -2,3 +2,5 @@ import CnvVerif.Props.C01
 import CnvVerif.Props.C02
 import CnvVerif.Props.C06
 import CnvVerif.Props.C07
+import CnvVerif.Props.C13
+import CnvVerif.Props.C14
